@@ -63,15 +63,14 @@ class Realize(Stream):
     def gen(self, rng, n):
         ds = durations()
         k = 0
-        for tg in TAGS:
-            for d in ds:
-                for lk in ("none", "note", "rest"):
-                    for nk in ("none", "s", "h", "rest"):
-                        if k >= n:
-                            return
-                        cur = {"kind": rng.choice("sssh"), "val": rng.randrange(7), "oct": rng.choice([0, 0, 1]), "dur": d}
-                        yield {"tag": tg, "cur": cur, "last": ctx_note(rng, "s" if lk == "note" else lk), "next": ctx_note(rng, nk)}
-                        k += 1
+        # the full grid tag x duration x contexts, in an order that covers every tag early (the quick tier takes a prefix)
+        grid = [(tg, d, lk, nk) for d in ds for lk in ("none", "note", "rest") for nk in ("none", "s", "h", "rest") for tg in TAGS]
+        rng.shuffle(grid)
+        grid.sort(key=lambda g: 0)            # stable no-op: keeps the shuffled order explicit
+        for tg, d, lk, nk in grid[:max(0, n - n // 4)]:
+            cur = {"kind": rng.choice("sssh"), "val": rng.randrange(7), "oct": rng.choice([0, 0, 1]), "dur": d}
+            yield {"tag": tg, "cur": cur, "last": ctx_note(rng, "s" if lk == "note" else lk), "next": ctx_note(rng, nk)}
+            k += 1
         while k < n:
             cur = {"kind": rng.choice("sshcb"), "val": rng.randrange(7), "oct": rng.choice([0, 0, 1, -1]),
                    "dur": F(rng.randrange(1, 200), rng.choice([1, 2, 3, 4, 6, 8, 12, 16, 24, 48]))}
@@ -130,11 +129,13 @@ class Pairs(Stream):
     def gen(self, rng, n):
         ds = durations()
         k = 0
+        exotic = [F(13, 5), F(5, 7), F(7, 5), F(11, 7), F(9, 5), F(17, 5), F(13, 7), F(3, 7)]
         for i, a in enumerate(TAGS):
             for b in TAGS[i + 1:]:
                 if k < n // 2:
                     yield {"tags": [a, b], "d": rng.choice(ds), "mel": None}
-                    k += 1
+                    yield {"tags": [a, b], "d": rng.choice(exotic), "mel": None}
+                    k += 2
         while k < n:
             mel = []
             for _ in range(rng.randrange(2, 6)):
@@ -151,9 +152,25 @@ class Pairs(Stream):
         from musiclang.library import I
         def f():
             if case["mel"] is None:
-                nt = mk_rnote({"kind": "s", "val": 2, "oct": 0, "dur": case["d"], "amp": 66}).add_tags(case["tags"])
-                last = mk_rnote({"kind": "s", "val": 0, "oct": 0, "dur": F(1), "amp": 66})
-                return {"pieces": pieces(nt.realize_tags(last_note=last, next_note=mk_rnote({"kind": "s", "val": 5, "oct": 0, "dur": F(1), "amp": 66})))}
+                def one():
+                    nt = mk_rnote({"kind": "s", "val": 2, "oct": 0, "dur": case["d"], "amp": 66}).add_tags(case["tags"])
+                    last = mk_rnote({"kind": "s", "val": 0, "oct": 0, "dur": F(1), "amp": 66})
+                    return pieces(nt.realize_tags(last_note=last, next_note=mk_rnote({"kind": "s", "val": 5, "oct": 0, "dur": F(1), "amp": 66})))
+                try:
+                    return {"pieces": one()}
+                except AssertionError as e:
+                    # does it fail only because durations are rounded to denominators <= LIMIT_DENOM?  Re-run with the limit lifted.
+                    from musiclang.write import note as NM
+                    old = NM.LIMIT_DENOM
+                    NM.LIMIT_DENOM = 10 ** 12
+                    try:
+                        p2 = one()
+                        exact = sum(x[1] for x in p2) == F(case["d"]) and all(x[1] >= 0 for x in p2)
+                    except Exception:
+                        exact = False
+                    finally:
+                        NM.LIMIT_DENOM = old
+                    return {"exc": "AssertionError", "msg": str(e)[:200], "only_resolution": exact}
             notes = []
             for n in case["mel"]:
                 x = mk_rnote(dict(n, amp=66))
@@ -172,6 +189,8 @@ class Pairs(Stream):
         if case["mel"] is None:
             key = "+".join(case["tags"])
             if mlang.is_exc(r):
+                if r.get("only_resolution"):
+                    return {"sig": "realize-exceeds-duration-resolution", "msg": f"{key} on duration {case['d']}: {r['msg']}"}
                 return {"sig": f"realize-raises:{key}", "msg": f"duration {case['d']}: {r}"}
             if sum(p[1] for p in r["pieces"]) != F(case["d"]):
                 return {"sig": f"realize-changes-span:{key}", "msg": str(r)}
